@@ -2,6 +2,26 @@
 the evidence texts (rule, assumptions)."""
 
 PLAN = {
+    "C09": {
+        "quick": [
+            {"kind": "enum", "test": "TestEnumC09", "env": {"VERIF_BOUND": 3}, "timeout": 600},
+            {"kind": "rapid", "test": "TestC09Hist", "checks": 15000},
+        ],
+        "thorough": [
+            {"kind": "enum", "test": "TestEnumC09", "env": {"VERIF_BOUND": 5}, "timeout": 5400},
+            {"kind": "rapid", "test": "TestC09Hist", "checks": 100000, "shards": 16},
+        ],
+    },
+    "C13": {
+        "quick": [
+            {"kind": "enum", "test": "TestEnumC13", "env": {"VERIF_BOUND": 2}, "timeout": 600},
+            {"kind": "rapid", "test": "TestC13Acc", "checks": 40000},
+        ],
+        "thorough": [
+            {"kind": "enum", "test": "TestEnumC13", "env": {"VERIF_BOUND": 3}, "timeout": 5400},
+            {"kind": "rapid", "test": "TestC13Acc", "checks": 200000, "shards": 16},
+        ],
+    },
     "C07": {
         "quick": [
             {"kind": "enum", "test": "TestEnumC07", "env": {"VERIF_BOUND": 7, "VERIF_ALPHA": 8}, "timeout": 600},
@@ -27,6 +47,8 @@ PLAN = {
 }
 
 RULES = {
+    "C09": "enumeration: breadth-first over all sequences of up to 3 (quick) / 5 (thorough) ops drawn from 50 op instances (17 SafeWriter/io.Writer methods x payloads from {a, space, LF, start marker, e-acute, 'a LF start-marker', empty}), with exact de-duplication of the buffer's hidden state through the verif hook; every transition is judged against the segment model, every retained path is also run on ManualBuffer, Sprintfn and a SafeFormat method. rapid: histories of up to 40 ops over the text or byte alphabet, with SetMode/raw-fragment writes for the buffer routes and Print/Printf ops. Non-trivial = the history has ops of at least two classes (safe/unsafe/pre-redactable) or a payload containing a marker byte or a line feed. Distinct = distinct reached buffer states (enumeration) / distinct histories (rapid), by 64-bit fingerprint.",
+    "C13": "enumeration: at every buffer state reachable by up to 2 (quick) / 3 (thorough) ops over the C09 op instances, each accessor (Len, Cap, String, RedactableString, RedactableBytes, GetMode), Reset, TakeRedactableString and TakeRedactableBytes is applied with and without spare capacity and followed by each of 4 suffix ops; rapid: histories of up to 25+10 ops with accessor calls inserted at random positions, an optional Reset/Take in the middle, an initial Grow of 0/1/3/7/64/100, on StringBuilder or ManualBuffer. Non-trivial = some accessor/Reset/Take ran while an envelope was open or unescaped bytes were pending (observed through the hook). Distinct = distinct specs by 64-bit fingerprint.",
     "C07": "enumeration: every string of up to 7 (quick) / 8 (thorough) tokens over {start marker, end marker, cross, LF, 'a', E2, 80, B9[, BA]} through Redact/StripMarkers (string and bytes variants, ToBytes/ToString), with the concatenation law at every token boundary; rapid: strings of up to 30 tokens over the byte alphabet with toggled envelopes (3/4 biased to well-formed) and pairs for the concatenation law. Non-trivial = the string contains at least one marker. Distinct = distinct input strings (64-bit FNV fingerprint).",
     "C10": "enumeration: every byte string up to the length bound over {E2,80,B9,BA,'a',LF,'?',C3[,space]} through EscapeMarkers/EscapeBytes, and through the internal routine for every start offset and both line-break settings; rapid: strings of up to 40 tokens over the byte alphabet (markers, marker bytes, other lead bytes, FF, text) and random splits of one payload into Write/WriteString calls on a ManualBuffer. Non-trivial = the input contains a full marker or an individual marker byte (for splits: and at least one cut). Distinct = distinct (check, input, offset, flag) by 64-bit FNV fingerprint (set capped at 4M per process).",
 }
@@ -46,6 +68,18 @@ HOOK_COMMITS = ["cf350cc"]
 NOT_APPLICABLE = {}
 
 CLAIMS = {
+    "C09": {
+        "text": "Every SafeWriter history up to the bound is explored breadth-first with exact state de-duplication (the buffer's hidden state is read through the verif hook, so a pruned path provably has the same future), and each transition is compared with a two-line segment model (stripped text = payloads in call order with markers replaced by '?'; text outside envelopes = safe payloads + line feeds of unsafe ones) plus the line-safety predicate; the four implementations (StringBuilder, ManualBuffer, Sprintfn printer, SafeFormat printer) must agree up to merging of envelopes. Long histories with hostile payloads are sampled with rapid. Exploration; exhaustive up to the stated history length.",
+        "design_ref": "DESIGN.md §4.9",
+        "note": "Trusted: the segment model and predicates in harness/writer.go, harness/oracle.go. The two equalities are stated for valid UTF-8 payloads, valid runes and ASCII single bytes (as the property's quantifier says); line-safety is checked for all payloads. Print/Printf segments contribute the library's own Sprint output (their correctness is C05/C16).",
+        "technique": "model-based (stateful) property testing: bounded exhaustive BFS with state de-duplication + rapid-generated histories against a reference model, cross-implementation differential",
+    },
+    "C13": {
+        "text": "Metamorphic check over generated call histories: the same history with and without accessor calls must give the same final string, each accessor must leave the hidden state (hook) untouched, Len must equal the length of RedactableString at every step, after Reset/Take the object must be indistinguishable (outputs and hidden state) from a new one under a generated suffix, and every string obtained earlier must be byte-identical at the end. Enumerated at every reachable short-history state, sampled for long histories. Exploration.",
+        "design_ref": "DESIGN.md §4.13",
+        "note": "Trusted: the verif hook (VerifState/VerifClone/VerifRawBytes) reports the real fields. RedactableBytes() returns a slice aliasing the live buffer; the property speaks of strings only, so byte slices obtained earlier are not tracked.",
+        "technique": "metamorphic + model-based property testing over generated histories (rapid) and bounded exhaustive state enumeration",
+    },
     "C07": {
         "text": "All strings of up to 7/8 tokens over the alphabet the two operations can distinguish (both markers, the cross, LF, an ordinary byte and three/four partial-marker bytes) are enumerated completely and each is judged by the algebraic laws of the statement (equality with a byte-level reference on well-formed inputs, idempotence, no marker after StripMarkers, agreement of string/bytes variants, concatenation homomorphism); longer strings are sampled with rapid. Exploration, exhaustive up to the token bound: the regular expressions have no memory beyond one envelope, so short strings cover every adjacency (empty, adjacent, first, last, nested, unbalanced envelopes).",
         "design_ref": "DESIGN.md §4.7",
